@@ -149,6 +149,17 @@ def gen_cases(seed, chunk, n, tier):
                         rng.shuffle(g)
                         g = g[: rng.randint(2, x.ndim)]
                         for mode in (["insert", "concat"] if not x.fermionic else ["insert"]):
+                            if rng.random() < 0.6:
+                                # call history: an array of IDENTICAL structure (same index objects, sectors,
+                                # groups) but another element type goes through the same fuse first, so that
+                                # anything memoised per structure (fuse plans, scratch zero blocks) is warm
+                                other = rng.choice([d_ for d_ in ser.DTYPES if d_ != dtype])
+                                tw = x.copy()
+                                tw.apply_to_arrays(lambda b_, _o=other: np.asarray(b_).astype(_o))
+                                try:
+                                    tw.fuse(tuple(g), mode=mode) if not x.fermionic else tw.fuse(tuple(g))
+                                except Exception:  # noqa
+                                    pass
                             f = x.fuse(tuple(g), mode=mode) if not x.fermionic else x.fuse(tuple(g))
                             if block_dtypes(f) - {dtype}:
                                 orc = f"fuse(mode={mode}) of {dtype} data returned dtype {sorted(block_dtypes(f))}"
@@ -1065,6 +1076,68 @@ def run_dflow(ctx):
     compare_dflow(ctx, items, model)
 
 
+def twin_fuse_stream(ctx):
+    """the SAME block structure (same index objects, stored sectors, groups) fused for every ordered pair of
+    element types, one after the other in one process, in both fuse strategies: every block of the later result
+    must have the later array's element type and the round trip must restore its data exactly (structure-keyed
+    caches must not carry an element type over)"""
+    import symmray as sr
+
+    rng = random.Random(ctx.seed * 9173 + 20)
+    n = 120 if ctx.tier == "quick" else 1200
+    done = 0
+    for _ in range(n):
+        sym = rng.choice(gen.SYMS)
+        nd = rng.choice([3, 4, 4])
+        x0 = gen.rand_array(rng, sym, ndim=nd, dtype="complex128", keep=rng.choice([0.4, 0.6]), max_charges=3,
+                            static=rng.random() < 0.7)
+        if len(x0.blocks) < 2:
+            continue
+        axes = list(range(nd))
+        rng.shuffle(axes)
+        groups = [tuple(axes[:2])] + ([tuple(axes[2:4])] if nd == 4 and rng.random() < 0.6 else [])
+        for mode in ("concat", "insert"):
+            first, second = rng.sample(ser.DTYPES, 2)
+            outs = {}
+            for dt in (first, second):
+                x = x0.copy()
+                if dt.startswith("complex"):
+                    x.apply_to_arrays(lambda b_, _d=dt: np.asarray(b_).astype(_d))
+                else:
+                    x.apply_to_arrays(lambda b_, _d=dt: np.asarray(b_).real.astype(_d))
+                try:
+                    f = x.fuse(*groups, mode=mode)
+                    u = f.unfuse_all()
+                except Exception as e:  # noqa
+                    ctx.violation(f"twin-fuse: fuse(mode={mode}) of {dt} data after the same structure in {first} "
+                                  f"raised {type(e).__name__}: {e}",
+                                  dict(stream="twin-fuse", array=ser.enc_val(x), groups=[list(g) for g in groups],
+                                       mode=mode, first=first, second=second), op="fuse", triggers=["dtype-twin"])
+                    break
+                outs[dt] = (x, f, u)
+                done += 1
+                bad = block_dtypes(f) - {dt} or block_dtypes(u) - {dt}
+                perm = [a for g in groups for a in g]
+                pos = sorted(min(g) for g in groups)
+                want = None
+                if not bad:
+                    # data restored exactly (up to the axis order unfuse_all leaves): compare sorted magnitudes and sum
+                    a1 = [complex(v) for b in x.blocks.values() for v in np.asarray(b).ravel()]
+                    a2 = sorted((complex(v) for b in u.blocks.values() for v in np.asarray(b).ravel() if v != 0),
+                                key=lambda c: (c.real, c.imag))
+                    a1 = sorted((c for c in a1 if c != 0), key=lambda c: (c.real, c.imag))
+                    if a1 != a2:
+                        want = "fuse/unfuse changed the stored values (imaginary part or precision lost?)"
+                if bad or want:
+                    ctx.violation(f"twin-fuse: fuse(mode={mode}) of {dt} data, fused after an array of identical structure "
+                                  f"with element type {first}: " + (want or f"block dtypes {sorted(block_dtypes(f) | block_dtypes(u))}"),
+                                  dict(stream="twin-fuse", array=ser.enc_val(x), groups=[list(g) for g in groups],
+                                       mode=mode, first=first, second=second), op="fuse", triggers=["dtype-twin"])
+                    break
+    ctx.evaluations += done
+    ctx.stat("twin_fuse.fuses", done)
+
+
 def run(ctx):
     # (1) promotion table / real-part map: complete tie to numpy
     qs = [["promote", a, b] for a in ser.DTYPES for b in ser.DTYPES] + [["real", a] for a in ser.DTYPES]
@@ -1088,6 +1161,7 @@ def run(ctx):
     hazard_witness(ctx)
     mixed_stream(ctx)
     pair_stream(ctx)
+    twin_fuse_stream(ctx)
     run_dflow(ctx)
 
 
